@@ -5,6 +5,7 @@ import (
 	"fmt"
 	"net"
 	"sort"
+	"strings"
 	"sync"
 
 	"github.com/go-kit/log"
@@ -162,6 +163,7 @@ func runC25(x *simkit.Exec) {
 		closes = x.Range("connection-closes", 1, 3)
 	}
 	nTenants := x.Range("tenants", 1, 3)
+	bulkFirst := x.Bool("bulk-request-first", 1, 40)
 	type tenantData struct {
 		tenant string
 		series []seriesDesc
@@ -240,6 +242,23 @@ func runC25(x *simkit.Exec) {
 		var ackErr error
 		done := false
 		s.Go("client", func() {
+			if bulkFirst {
+				// an earlier, very large request through the same process (more than 2^16 distinct symbols
+				// in one replicated batch): whatever it leaves behind in pooled encoders and decoders must
+				// not leak into the request under test
+				bulk := &storepb.WriteRequest{}
+				tt := storepb.TimeSeriesTenantTuple{Tenant: "tenant-bulk"}
+				for i := 0; i < 34000; i++ {
+					// six distinct symbols per series: a forward to one (node, replica) pair carries a share of
+					// the series only
+					v := fmt.Sprint(i)
+					tt.Timeseries = append(tt.Timeseries, simpleSeries("bulk_metric_"+v, "bulk_a", "a"+v, "bulk_b", "b"+v, "bulk_c", "c"+v, "bulk_d", "d"+v, "bulk_e", "e"+v))
+				}
+				bulk.TimeseriesTenantData = append(bulk.TimeseriesTenantData, tt)
+				_, err := en.handler.RemoteWrite(context.Background(), bulk)
+				s.Note("client: bulk request first: %v", firstLine(fmt.Sprint(err), 80))
+				x.Probe("c25.bulk_request_first")
+			}
 			_, ackErr = en.handler.RemoteWrite(context.Background(), wr)
 			done = true
 			s.Note("client: %v", firstLine(fmt.Sprint(ackErr), 100))
@@ -344,6 +363,9 @@ func runC25(x *simkit.Exec) {
 		for _, n := range c.nodes {
 			for _, cm := range n.store.snapshot() {
 				for _, got := range cm.series {
+					if cm.tenant == "tenant-bulk" && strings.HasPrefix(got.Name, "bulk_metric_") {
+						continue
+					}
 					if !wantNames[cm.tenant+"/"+got.Name] {
 						s.Violate("replicated-equals-sent", "capnproto:unknown-series", "node %s stored series %q for tenant %q which nobody sent (labels %s)", n.name, got.Name, cm.tenant, got.Labels)
 						return
